@@ -1,7 +1,9 @@
 use crate::engine::Ctx;
 
 pub mod c01;
+pub mod smoke;
 
 pub const REGISTRY: &[(&str, fn(&mut Ctx))] = &[
     ("C01", c01::run),
+    ("SMOKE", smoke::run),
 ];
